@@ -94,9 +94,13 @@ def treeProof (l : List H) (i : Nat) : Option CommitProof :=
 def head (l : List H) : Option CommitProof :=
   if l.isEmpty then none else treeProof l (l.length - 1)
 
-/-- `CommitTree::has_prefix`: the first `length` leaves hash to `root`. -/
-def hasPrefix (l : List H) (r : H) (length : Nat) : Bool :=
-  if length = 0 ∨ l.length < length then false else root (l.take length) = some r
+/-- `CommitTree::contains_head`: a proof of the last leaf stands for the whole other
+tree, which is contained only when the first `length` local leaves hash to its root;
+proofs of other positions only claim the proven leaf. -/
+def containsHead (l : List H) (r : H) (indices : List Nat) (length : Nat) : Bool :=
+  if indices.length = 1 ∧ indices.head?.map (· + 1) = some length then
+    if l.length < length then false else root (l.take length) = some r
+  else true
 
 /-- `CommitTree::compare`; outer `none` = `Err(NoRootCommit)`; inner `none` =
 multi-index proof (outside the model). -/
@@ -109,7 +113,7 @@ def compare (l : List H) (p : CommitProof) : Option (Option Comparison) :=
     if toProve.length = p.indices.length then
       match verify p.hashes p.root p.indices toProve p.length with
       | some true =>
-        if hasPrefix l p.root p.length then some (some (.contains p.indices))
+        if containsHead l p.root p.indices p.length then some (some (.contains p.indices))
         else some (some .unknown)
       | some false => some (some .unknown)
       | none => some none
